@@ -853,7 +853,8 @@ class Server:
     def increment_output(
         self, messages: list[str], sources: list[BuildSource], is_tty: bool, terminal_width: int
     ) -> dict[str, Any]:
-        status = 1 if messages else 0
+        __, n_notes, __ = count_stats(messages)
+        status = 1 if messages and n_notes < len(messages) else 0
         messages = self.pretty_messages(messages, len(sources), is_tty, terminal_width)
         return {"out": "".join(s + "\n" for s in messages), "err": "", "status": status}
 
